@@ -22,7 +22,7 @@ import (
 var wireReserved = []string{"", "_uuid", "uuid", "named-uuid", "set", "map",
 	"==", "!=", "<", "<=", ">", ">=", "includes", "excludes",
 	"+=", "-=", "*=", "/=", "%=", "insert", "delete",
-	"unlimited", "integer", "real", "boolean", "string", "\x00reserved26",
+	"unlimited", "integer", "real", "boolean", "string", "00000000-0000-0000-0000-000000000000",
 	"type", "enum", "minReal", "maxReal", "minInteger", "maxInteger", "minLength", "maxLength", "refTable", "refType",
 	"key", "value", "min", "max", "ephemeral", "mutable"}
 
@@ -71,7 +71,10 @@ func gvalTerm(s *val.Syms, x interface{}) string {
 	case float64:
 		return coqNum(v)
 	case int:
-		return coqNum(float64(v))
+		if v < 0 {
+			return fmt.Sprintf("GNum (%d)%%Z 1%%positive", v)
+		}
+		return fmt.Sprintf("GNum %d%%Z 1%%positive", v)
 	case string:
 		return fmt.Sprintf("GStr %d%%N", s.ID(v))
 	case []interface{}:
